@@ -381,6 +381,8 @@ def snapshot(g, universe=()):
     if kind == "SCRG":
         ac = _try("atom_stereo_changes", lambda: {a: dict(t) for a, t in g.atom_stereo_changes.items()})
         bc = _try("bond_stereo_changes", lambda: {frozenset(b): dict(t) for b, t in g.bond_stereo_changes.items()})
+        if any(a not in aset for a in ac):
+            problems.append("atom_stereo_changes:key-not-an-atom")
         v["achange"] = {}
         for a, t in ac.items():
             tt = {}
